@@ -189,7 +189,7 @@ func genC08(g *G, n int, out io.Writer, full bool) {
 					// the same profile handed to the validating entry points, under several report configurations
 					enc.Encode(C08Case{Op: "c08", Id: id, Builtin: b.Name, Position: pos, Syntax: syn, Via: "validate", Profile: prof, Data: "[]"})
 					id++
-					for _, rc := range []caseRC{{"file:///dialects/validation-report.yaml", "file:///dialects/lexical.yaml", false}, {"", "", true}, {"http://x.org/r", "http://x.org/l", false}} {
+					for _, rc := range []caseRC{{"file:///dialects/validation-report.yaml", "file:///dialects/lexical.yaml", false, ""}, {"", "", true, ""}, {"http://x.org/r", "http://x.org/l", false, ""}} {
 						r := rc
 						enc.Encode(C08Case{Op: "c08", Id: id, Builtin: b.Name, Position: pos, Syntax: syn, Via: "validate-cfg", RC: &r, Profile: prof, Data: okData})
 						id++
